@@ -1,7 +1,9 @@
 SPECIFICATION Spec
 CONSTANTS MaxRecs = 3 MaxCalls = 5 MaxRuns = 4 CommitBeforeReturn = TRUE TolerantVersionRead = TRUE
           AtomicUpgrade = TRUE Legacy = FALSE MaxBatches = 0 GateResetOnError = TRUE ReloadWait = 0 MaxDepth = 1 EnterKeepsPending = TRUE ParentFirst = TRUE
+CONSTANTS MaxVers = 1 TokenConflict = "ignore" MaxFaults = 0 CommitErrorRaises = TRUE
 INVARIANT TypeOK
+INVARIANT AckedUnchanged
 INVARIANT AckedDurable
 INVARIANT NoPartialRecord
 INVARIANT ReopenOk
